@@ -115,7 +115,15 @@ func c15Keys(r *mon.Rng) *model.Schema {
 	for _, k := range keys[:r.Range(1, 5)] {
 		o.Props = append(o.Props, model.P(k, scalarOrNested(r, k)))
 	}
-	return &model.Schema{Root: o}
+	s := &model.Schema{Root: o}
+	if r.Chance(1, 3) {
+		// key shortcut whose rule-free string type spells its example with escapes that are not
+		// the shortest ones: Example must keep a key the schema itself accepts
+		lit := mon.Pick(r, []string{`"a\/b"`, `"caf\u00e9"`, `"tab\u0009stop"`, `"q\u0022q"`, `"plain"`, `"\u0041BC"`})
+		s.Types = append(s.Types, &model.TypeDef{Name: "@ks", Root: &model.Node{Kind: model.KString, Lit: lit, KeyPos: -1}})
+		o.Props = append(o.Props, model.PShort("@ks", model.Int("1")))
+	}
+	return s
 }
 
 func scalarOrNested(r *mon.Rng, k string) *model.Node {
